@@ -68,3 +68,16 @@ Print Assumptions C15_source_pad_is_the_gap.
 Theorem C15_source_pad_entry_shape : gen_align_entry_shape = true.
 Proof. exact gen_align_entry_shape_ok. Qed.
 Print Assumptions C15_source_pad_entry_shape.
+
+(* ... and it is the `remainder` of the hand model (Model/Hasher.neg_mod, used by Model/Creators.v1_aligned_entries), whose
+   correspondence with the code is only sampled: for the alignment arithmetic source = model holds for every size. *)
+From TF Require Import Model.Hasher Proofs.FormulasModel.
+Theorem C15_source_pad_is_the_models : forall n pl : nat, (0 < pl)%nat ->
+  Z.of_nat (neg_mod n pl) = gen_align_pad (Z.of_nat n) (Z.of_nat pl).
+Proof. exact model_pad_is_source_pad. Qed.
+Print Assumptions C15_source_pad_is_the_models.
+
+Theorem C15_source_pad_test_is_the_models : forall n pl : nat, (0 < pl)%nat ->
+  (neg_mod n pl =? 0)%nat = (gen_align_pad (Z.of_nat n) (Z.of_nat pl) =? 0)%Z.
+Proof. exact model_pad_entry_iff. Qed.
+Print Assumptions C15_source_pad_test_is_the_models.
